@@ -137,6 +137,7 @@ def _misc(args):
 
 def run(ctx, replay=None):
     lib()
+    ctx.notes["reflectors_certified_by_TLC"] = E.check_against_tlc(ctx)
     thorough = ctx.tier == "thorough"
     ctx.assumptions += [
         "v_k for max_iterations = k under one seed is the k-th iterate (same start vector); its coordinates in the constructed eigenbasis give Lg(c2/c1)",
